@@ -11,7 +11,7 @@ from typing import Any, Optional
 import numpy
 import pandas
 
-INDEX_KINDS = ["default", "string", "nonunique", "unsorted"]
+INDEX_KINDS = ["default", "string", "nonunique", "unsorted", "range-offset", "range-step"]
 ENTRY_POINTS = ["model_matrix", "Formula.get_model_matrix", "ModelSpec.get_model_matrix", "materializer.get_model_matrix", "materializer.get_model_matrix#2"]
 # "#2": the second build of ONE materializer object (the first one, of the same formula, is thrown away)
 
@@ -25,6 +25,10 @@ def make_index(kind: str, n: int):
         return [["p", "q", "p", "q", "p", "q"][k] for k in range(n)]
     if kind == "unsorted":
         return [(7 * k + 3) % 11 for k in range(n)][::-1]
+    if kind == "range-offset":  # still a RangeIndex, but not 0..n-1 (a sliced frame)
+        return pandas.RangeIndex(10, 10 + n)
+    if kind == "range-step":
+        return pandas.RangeIndex(3, 3 + 2 * n, 2)
     raise ValueError(kind)
 
 
